@@ -25,7 +25,7 @@ Context {St : Type}.
 Variable H : S.handler St.
 
 (* (replies per frame, final units, call log, how the session's handling ended, how the reader ended) *)
-Definition server_system (l : S.link) (a : S.auth) (units : list (N * St)) (chunks : Reader.net) (fi : F.fin) :=
+Definition server_system (l : S.link) (a : S.auth) (units : S.ucfg St) (chunks : Reader.net) (fi : F.fin) :=
   let r := Reader.run_session (kind_of_link l) false chunks fi in
   (Server.session H l a units (map to_server_frame (Reader.frames_of (fst r))), snd r).
 End Sys.
